@@ -91,6 +91,11 @@ def catalogue_c11(tier):
     cs.append(case('c11/concat-acold', T('concat', ins=[ac(1, 2), ac(2, 2)]), [], tags=['srcs:2', 'merge']))
     cs.append(case('c11/merge-acold', T('merge', ins=[ac(1, 2), ac(2, 2)]), [], tags=['srcs:2', 'merge']))
     cs.append(case('c11/flat_map-acold', T('flat_map', f='acold', ins=[T('from_iter', items=[1, 2])]), [], tags=['srcs:2', 'merge']))
+    # the source of flat_map is fed by several threads at once: the upstream observers of the inner observables are created concurrently
+    for nthreads in ([2] if tier == 'quick' else [2, 3]):
+        c = case('c11/flat_map-acold/%d-feeding-threads' % nthreads, T('flat_map', f='acold', ins=[S(1)]), [[dict(E(1, 'n', 3 + k), p=5)] for k in range(nthreads)] + [[SL(200), dict(E(1, 'c'), p=5)]], tags=['bag'])
+        c['expect'] = [['n', 10 * (3 + k) + 1] for k in range(nthreads)]
+        cs.append(c)
     if tier == 'thorough':
         cs.append(case('c11/merge3', T('merge', ins=[S(1), S(2), S(3)]), [items(1, 2) + [E(1, 'c')], items(2, 1) + [E(2, 'c')], items(3, 1) + [E(3, 'c')]], tags=['srcs:3', 'merge']))
         cs.append(case('c11/zip3', T('zip', ins=[mod(1), mod(2), mod(3)]), [items(1, 2) + [E(1, 'c')], items(2, 1) + [E(2, 'c')], items(3, 1) + [E(3, 'c')]], tags=['srcs:3', 'zip']))
@@ -952,13 +957,18 @@ def run_conc_check(prop, tier, flags, seed, design_ref, models=(), extra_cases=N
         # ---- schedules of the real code
         bound = 2 if tier == 'quick' else 3
         per_case, scheds, files = explore(work, harness, cases, 'dfs', bound, 4000 if tier == 'quick' else 40000, seed, 'dfs')
+        # the depth-first enumeration reaches early preemptions last: where the cap cuts it off, every schedule that deviates from the
+        # default one at exactly one choice point is run in a pass of its own (linear in the length of the run)
+        done = set(pc['case'] for pc in per_case if pc['exhausted_within_bound'])
+        pc1, sch1, files1 = explore(work, harness, [c for c in cases if c['name'] not in done], 'sweep', 1, 4000 if tier == 'quick' else 40000, seed, 'dfs1')
         pc2, sch2, files2 = explore(work, harness, cases, 'random', 0, 300 if tier == 'quick' else 5000, seed, 'rnd')
-        # trace ids of the two explorations must not collide
+        # (trace ids of the explorations may collide: each pass is validated and looked up on its own)
         verdicts, traces = validate(work, files, module, 'dfs')
+        v1, t1 = validate(work, files1, module, 'dfs1')
         v2, t2 = validate(work, files2, module, 'rnd')
         out_lines, violations, kf_hits = [], [], {}
         seen = set()
-        allv = [(verdicts, traces, scheds), (v2, t2, sch2)]
+        allv = [(verdicts, traces, scheds), (v1, t1, sch1), (v2, t2, sch2)]
         n_valid = 0
         for vs, ts, ss in allv:
             for tid, v in sorted(vs.items()):
@@ -1012,7 +1022,7 @@ def run_conc_check(prop, tier, flags, seed, design_ref, models=(), extra_cases=N
             if qd['drift']:
                 out_lines.append('MODEL-DRIFT property=C12 the lock-level log of the plain Subject is no longer a behaviour of the L1 design model SubjectConc (%d of %d cases; first: %s)'
                                  % (len(qd['drift']), qd['cases'], qd['drift'][0]['detail'][:300].replace('\n', ' ')))
-        runs = sum(c['runs'] for c in per_case) + sum(c['runs'] for c in pc2)
+        runs = sum(c['runs'] for c in per_case) + sum(c['runs'] for c in pc1) + sum(c['runs'] for c in pc2)
         distinct = sum(c['distinct_traces'] for c in per_case)
         nontriv = sum(1 for vs, ts, ss in allv for tid, v in vs.items() if v['events'] >= 4)
         samples = []
@@ -1028,7 +1038,7 @@ def run_conc_check(prop, tier, flags, seed, design_ref, models=(), extra_cases=N
                 'rule': 'each case of the catalogue is executed on the real crate under every schedule with at most %d preemptions (DFS over lock-operation schedule points, '
                         'complete within the bound unless capped) plus seeded random schedules; traces are de-duplicated by visible content; non-trivial = at least 4 visible events' % bound,
                 'exhaustive': all(c['exhausted_within_bound'] for c in per_case),
-                'design_models_checked_by_tlc': mc, 'lock_level_conformance_with_L1': qd, 'cases': per_case, 'random_cases': pc2, 'monitors': flags,
+                'design_models_checked_by_tlc': mc, 'lock_level_conformance_with_L1': qd, 'cases': per_case, 'one_preemption_pass': pc1, 'random_cases': pc2, 'monitors': flags,
                 'l2_rejections_known': {k: c[0] for k, c in kf_hits.items()}, 'l2_rejections_new': len(violations),
             },
             'assumptions': ['schedule points are the lock / condvar / spawn / sleep operations of the facade: the crate has no atomics and no unsafe code, so these are all inter-thread interactions',
